@@ -49,13 +49,22 @@ class ConclusionSelector(LogicalBinaryOperator, ABC):
             self._conclusion_.update(conclusions)
             return
         required_vars = HashedIterable()
+        argument_ids = set()
         for conclusion in conclusions:
             vars_ = conclusion._unique_variables_.filter(
                 lambda v: not isinstance(v.value, Literal)
             )
             required_vars.update(vars_)
+            # an argument of the conclusion may take several values for one value of its variable (flatten), the
+            # argument expressions themselves tell two conclusions apart
+            argument_ids.update(
+                argument._id_
+                for argument in vars(conclusion.value).get("_child_vars_", {}).values()
+            )
         required_output = {
-            k: v for k, v in output.bindings.items() if k in required_vars
+            k: v
+            for k, v in output.bindings.items()
+            if k in required_vars or k in argument_ids
         }
         # the same bindings may trigger different conclusions (e.g. a rule and its next_rule)
         required_output[-1] = tuple(sorted(c._id_ for c in conclusions))
